@@ -174,7 +174,9 @@ def decide(prop, tier, seed, mod, obs, results, wall, args, declared):
     elif v == oblig.REFUTED:
       hit = None
       for k in known:
-        if fnmatch.fnmatch(o.id, k['obligation']):
+        # a finding is identified by the obligation AND, where given, by the failing call site named in the refutation (`detail_contains`): another violation of the same
+        # obligation is still reported
+        if fnmatch.fnmatch(o.id, k['obligation']) and (not k.get('detail_contains') or k['detail_contains'] in (r.get('detail') or '')):
           hit = k
           break
       if hit is not None:
